@@ -2,6 +2,7 @@
 import re
 from .common import *
 from .. import grammar
+from . import facts
 from ..grammar import fmt_tok
 from .chunk import sig
 
@@ -28,7 +29,16 @@ class Facts:
         self.lookups = {}        # key expression -> accessor (get / get_mut / remove) found Some
         self.stream_state = {}   # key expression -> discriminant
         conn = variant_index(prog, "sessions::server::session_state::SessionState", "Connected")
+        self.not_connected = False     # the path is taken only when the session is not (fully) connected
         for t in path:
+            if t[0] == "probe" and isinstance(t[1], tuple) and t[1] and t[1][0] == "facts" and t[1][2] is not None:
+                states, app = t[1][2]
+                if states == (conn,):
+                    self.connected_state = True
+                if app == "some":
+                    self.app_some = True
+                if conn not in states or app == "none":
+                    self.not_connected = True
             if t[0] != "when":
                 continue
             d, v = t[1], t[2]
@@ -71,7 +81,15 @@ def handler_paths(env, b):
                 else:
                     d = S.dom(("discr", val))
                     out.append(tuple(x for x in range(max(d.lo, 0), min(d.hi, 16) + 1) if x not in d.excl) if d.lo > -1000 else None)
-        return tuple(out)
+        # and what the path knows about the values current_state / connected_app_name had on entry (however the guard was written)
+        conn = None
+        if b.arg_count >= 1:
+            st0 = facts.entry_field(it, env.prog, TY, ["current_state"])
+            app0 = facts.entry_field(it, env.prog, TY, ["connected_app_name"])
+            if st0 is not None and app0 is not None:
+                n_states = len(next(a for a in env.prog.adts.values() if a["pretty"] == "sessions::server::session_state::SessionState")["variants"])
+                conn = (tuple(sorted(facts.discr_values(S, st0, range(n_states)))), "some" if facts.is_some(S, app0) else "none" if facts.is_none(S, app0) else None)
+        return ("facts", tuple(out), conn)
     return [sig(p) for p in grammar.trace(env, b.key, "r", probe=probe).paths]
 
 
@@ -192,7 +210,7 @@ def run(env, rep):
                             took_nc = True
                     if re.match(r"^discr\(" + SELF % "connected_app_name" + r"\)$", t[1]) and t[2] == "0":
                         took_nc = True
-            if took_nc:
+            if took_nc or f.not_connected:
                 n_ref += 1
                 text = rets[-1][1]
                 err_cmd = any(t[0] == "call" and ((t[1].endswith("into_message_payload") and t[2] and "Amf0Command(to_string('_error')" in t[2][0]) or t[1].endswith("create_error_packet")) for t in p)
@@ -299,7 +317,7 @@ def run(env, rep):
             continue
         n6 += 1
         pr = [t for t in p if t[0] == "probe"]
-        finals = pr[-1][1] if pr else ()
+        finals = pr[-1][1][1] if pr else ()
         pub_vi = [v["vi"] for v in stream_adt["variants"] if v["name"] in ("Publishing", "Playing")]
 
         def idle(x):
